@@ -17,8 +17,8 @@
 (*                                                                             *)
 (* Deviations of the code from the property are CONSTANT switches so that TLC  *)
 (* shows the model tells them apart (DESIGN.md 2.6):                           *)
-(*   SplitSlotCheck   TRUE  = the slot test (GetCount) and the registration    *)
-(*                            (AddRequest) are separate steps (O13)            *)
+(*   SplitSlotCheck   TRUE  = the slot test (GetCount) is not repeated together *)
+(*                            with the registration (AddRequest) (O13)         *)
 (*   RequeueNewTs     TRUE  = a blocked head is pushed back with a new         *)
 (*                            timestamp: it goes behind its priority class(O12)*)
 (*   StopAllGuarded   FALSE = StopAll signals every watched request whatever   *)
@@ -102,19 +102,19 @@ process (R \in Req)
     await now + TTL < MaxNow /\ ~ps.dead;
     expireAt[self] := now + TTL;
     emit([ev |-> "arrive", id |-> self, prio |-> Prio[self], t |-> now]);
-    if (Full(count)) {
-        goto Refuse;
-    } else if (~SplitSlotCheck) {
-        count := count + 1;
-    };
- Enroll:    \* AddRequest (count, watch list) and queue.Enqueue                      [-> event q.enqueued]
+    if (Full(count)) { goto Refuse; };
+ Enroll:    \* AddRequest (count - repaired: test and increment in one step -, watch list), queue.Enqueue [-> event q.enqueued]
     await ~ps.dead;
-    if (SplitSlotCheck) { count := count + 1; };
-    watch := watch \cup {self};
-    hs := Append(hs, self);
-    nord := nord + 1;
-    ord[self] := nord;
-    emit(EvI("enq", self));
+    if (~SplitSlotCheck /\ Full(count)) {
+        goto Refuse;
+    } else {
+        count := count + 1;
+        watch := watch \cup {self};
+        hs := Append(hs, self);
+        nord := nord + 1;
+        ord[self] := nord;
+        emit(EvI("enq", self));
+    };
  Wait:      \* Request.Wait
     await wg[self] <= 0 /\ ~ps.dead;
  Return:
@@ -275,29 +275,25 @@ Arrive(self) == /\ pc[self] = "Arrive"
                    /\ viol' = P!Viol(ps, ([ev |-> "arrive", id |-> self, prio |-> Prio[self], t |-> now]))
                 /\ IF Full(count)
                       THEN /\ pc' = [pc EXCEPT ![self] = "Refuse"]
-                           /\ count' = count
-                      ELSE /\ IF ~SplitSlotCheck
-                                 THEN /\ count' = count + 1
-                                 ELSE /\ TRUE
-                                      /\ count' = count
-                           /\ pc' = [pc EXCEPT ![self] = "Enroll"]
-                /\ UNCHANGED << now, cancelled, watch, hs, ord, nord, state, 
-                                result, wg, qwin, qcnt, inDrain, requeued, cur, 
-                                w >>
+                      ELSE /\ pc' = [pc EXCEPT ![self] = "Enroll"]
+                /\ UNCHANGED << now, cancelled, count, watch, hs, ord, nord, 
+                                state, result, wg, qwin, qcnt, inDrain, 
+                                requeued, cur, w >>
 
 Enroll(self) == /\ pc[self] = "Enroll"
                 /\ ~ps.dead
-                /\ IF SplitSlotCheck
-                      THEN /\ count' = count + 1
-                      ELSE /\ TRUE
-                           /\ count' = count
-                /\ watch' = (watch \cup {self})
-                /\ hs' = Append(hs, self)
-                /\ nord' = nord + 1
-                /\ ord' = [ord EXCEPT ![self] = nord']
-                /\ /\ ps' = P!Step(ps, (EvI("enq", self)))
-                   /\ viol' = P!Viol(ps, (EvI("enq", self)))
-                /\ pc' = [pc EXCEPT ![self] = "Wait"]
+                /\ IF ~SplitSlotCheck /\ Full(count)
+                      THEN /\ pc' = [pc EXCEPT ![self] = "Refuse"]
+                           /\ UNCHANGED << count, watch, hs, ord, nord, ps, 
+                                           viol >>
+                      ELSE /\ count' = count + 1
+                           /\ watch' = (watch \cup {self})
+                           /\ hs' = Append(hs, self)
+                           /\ nord' = nord + 1
+                           /\ ord' = [ord EXCEPT ![self] = nord']
+                           /\ /\ ps' = P!Step(ps, (EvI("enq", self)))
+                              /\ viol' = P!Viol(ps, (EvI("enq", self)))
+                           /\ pc' = [pc EXCEPT ![self] = "Wait"]
                 /\ UNCHANGED << now, cancelled, state, result, wg, expireAt, 
                                 qwin, qcnt, inDrain, requeued, cur, w >>
 
@@ -495,9 +491,16 @@ Order       == "Order" \notin viol
 SizeBound   == "SizeBound" \notin viol
 NoCrash     == "NoCrash" \notin viol /\ \A i \in Req : wg[i] \in {0, 1}
 Protocol    == "Protocol" \notin viol
+\* open finding C06-O12 (RequeueNewTs): the only order inversions are those overtaking a request that was pushed back
+OrderKF     == "Order" \in viol => \E j \in requeued : ps.ph[j] = "waiting"
 \* the verdict returned is the decision taken
 Faithful    == \A i \in Req : pc[i] = "Remove" /\ ps.ph[i] = "answered" /\ i \in ps.granted /\ ~cancelled
                                => result[i] = "success"
+
+\* safety forms of DrainSafe (they make the variants' counterexamples short; Answered below is the property itself):
+\* the loop never returns while a request waits unanswered, and a drain releases every watched waiting request
+NotStranded   == ~(pc["loop"] = "Done" /\ \E i \in Req : pc[i] = "Wait" /\ wg[i] = 1)
+DrainReleases == [][(pc["loop"] = "Tick" /\ cancelled /\ inDrain') => \A i \in watch' : state'[i] # "enqueued"]_vars
 
 \* model-level sanity
 TypeOK == /\ count \in 0..(Cardinality(Req))
@@ -506,18 +509,20 @@ TypeOK == /\ count \in 0..(Cardinality(Req))
           /\ state \in [Req -> {"enqueued", "processing", "processed"}]
 
 \* fairness: every goroutine that can run eventually runs; the TTL watcher is only certain to run while the
-\* context is alive (after cancellation its select may take ctx.Done; a scan in progress completes), the clock runs
+\* context is alive (after cancellation its select may take ctx.Done; a scan in progress completes) - strongly fair: it
+\* retries an expired request without pause, while the loop holds a request in `processing` only for one quota call per
+\* 100 ms tick -, the clock runs
 FairSpec == /\ Spec
             /\ \A i \in Req : WF_vars(R(i))
             /\ WF_vars(Loop)
-            /\ WF_vars(~cancelled /\ Scan) /\ WF_vars(Signal)
+            /\ SF_vars(~cancelled /\ Scan) /\ WF_vars(Signal)
             /\ WF_vars(Clk)
 \* every request that reached the processor gets its verdict (InTTL, eventual form; DrainSafe with shutdown)
 Answered == \A i \in Req : (pc[i] \in {"Enroll", "Wait"}) ~> (pc[i] \in {"Return", "Remove", "Done"} \/ ps.dead)
 
-\* state space limit for the safety runs; bookkeeping hidden from the fingerprint
-View == << pc, now, cancelled, count, watch, hs, ord, nord, state, result, wg,
-           expireAt, qwin, qcnt, inDrain, ps, viol, cur, w >>
+\* fingerprint of a state: everything (`requeued` is bookkeeping for OrderKF and the witnesses, it follows from the rest
+\* of the history only, so it stays in)
+View == vars
 
 \* witnesses (expected to be VIOLATED: non-vacuity of the antecedents)
 W_Requeued   == requeued = {}
